@@ -41,7 +41,9 @@ func (c07BareStrategy) NewEntity() *c07Bare                           { return &
 func (c07BareStrategy) FillEntity(*c07Bare, *boltz.TypedBucket)       {}
 func (c07BareStrategy) PersistEntity(*c07Bare, *boltz.PersistContext) {}
 
-var c07Entries = []string{"update", "nested-update", "batch"}
+// migration-step: the body is a step of MigrationManager.Migrate, which reports the failure on the step and returns the
+// version it was heading for; migration-step-stays: ... and returns the version it started from
+var c07Entries = []string{"update", "nested-update", "batch", "migration-step", "migration-step-stays"}
 
 func c07OpGen(t *rapid.T, l string, m *kit.Model) kit.Op {
 	// reuse the kitchen-sink vocabulary of C06
@@ -345,8 +347,14 @@ func runC07(c c07Case) kit.Result {
 			if entry == "batch" && pos != 0 && pos != len(c.Body) {
 				continue // Db.Batch waits 10 ms per call: first and last position only
 			}
+			if strings.HasPrefix(entry, "migration-step") && pos != 0 && pos != len(c.Body) {
+				continue
+			}
 			for _, kind := range c07Kinds {
 				v, ok := failingVariant(kind, states[pos])
+				if strings.HasPrefix(entry, "migration-step") && kind == "pre-commit-action-error-registered-before-tx" {
+					ok = false // the migration manager supplies the context
+				}
 				if !ok {
 					res.Classes = append(res.Classes, "not-applicable:"+kind)
 					continue
@@ -434,6 +442,17 @@ func runC07(c c07Case) kit.Result {
 				case "nested-update":
 					txErr = w.Z.Db.Update(topCtx, func(ctx boltz.MutateContext) error {
 						return w.Z.Db.Update(ctx, body)
+					})
+				case "migration-step", "migration-step-stays":
+					w.MigSeq++
+					txErr = boltz.NewMigratorManager(w.Z.Db).Migrate(fmt.Sprintf("verif-%d", w.MigSeq), 1, func(step *boltz.MigrationStep) int {
+						if err := body(step.Ctx); err != nil {
+							step.SetError(err)
+							if entry == "migration-step-stays" {
+								return step.CurrentVersion
+							}
+						}
+						return 1
 					})
 				}
 				if harnessErr != nil {
